@@ -100,7 +100,7 @@ func dump(args []string) {
 		fi := p.Info(fn)
 		fmt.Printf("=== %s\n", fn)
 		for _, b := range fn.Blocks {
-			fmt.Printf(" block %d (%s) guards: %v\n", b.Index, b.Comment, fi.Guards(b))
+			fmt.Printf(" block %d (%s) preds=%d held=%v guards: %v\n", b.Index, b.Comment, len(b.Preds), p.HeldAt(b.Instrs[0]).Names(), fi.Guards(b))
 			for _, in := range b.Instrs {
 				if v, ok := in.(ssa.Value); ok {
 					fmt.Printf("    %-6s = %-50s  ⟦%s⟧\n", v.Name(), in.String(), fi.T(v).S)
